@@ -15,7 +15,7 @@ ALL = [f"C{i:02d}" for i in range(1, 21)]
 
 def main():
     rf_root = Path(sys.argv[1]) if len(sys.argv) > 1 else Path("/tmp/seed-outrf")
-    muts = [m for m in selftest.load_mutants(None) if m.get("expect") not in ("silent",)]
+    muts = [m for m in selftest.load_mutants(None) if m.get("expect") not in ("silent", "no-violation")]
     # run every violating variant under all the properties it names
     rfs = [dict(id=f"rf-{p.parent.parent.name}-{p.parent.name}", props=ALL, expect="silent", patch=str(p), edits=[]) for p in sorted(rf_root.glob("C*/[0-9]/patch.diff"))]
     with ProcessPoolExecutor(max_workers=12) as ex:
